@@ -25,7 +25,7 @@ import (
 	"github.com/google/pprof/verif/internal/sess"
 )
 
-var oddStrings = []string{"", "a", "cpu/wall", "../up", "/proc/self/cwd", "/proc/self/cwd/.", "/", ".", strings.Repeat("L", 3000), "\xff\xfe", `q"r\`, "new\nline", "<b>&amp;", "(", "[", "*", "a.b(c)", "ünï", "%s%d", "\x00", " ", "::", "f\tg", "{{.}}", "</script>"}
+var oddStrings = []string{"", "a", "cpu/wall", "../up", "/proc/self/cwd", "/proc/self/cwd/.", "/", ".", strings.Repeat("L", 3000), "\xff\xfe", `q"r\`, "new\nline", "<b>&amp;", "(", "[", "*", "a.b(c)", "ünï", "%s%d", "\x00", " ", "::", "f\tg", "{{.}}", "</script>", "ns::Ptr::operator->", "ns::Less::operator>", "x<int>::at) const", "a::b(c))", "v<<w>"}
 
 // OddProfile generates a structurally valid profile with odd content.
 func OddProfile(r *rand.Rand) *profile.Profile {
@@ -314,7 +314,14 @@ func runInteractive(c *harness.Ctx) harness.Result {
 		}
 	}
 	res := harness.Result{NonTrivial: true, Sig: fmt.Sprintf("inter %d %d", len(lines), c.Index), Sample: map[string]any{"lines": truncAll(lines, 60)}}
-	out, err, hang := runSession(sess.Spec{Profile: buf.Bytes(), Mode: "interactive", Lines: lines, Dir: c.Tmp})
+	// a third of the sessions were started with odd values given on the command line, which pprof
+	// only looks at when a command needs them; "o" lists the options then
+	flags := map[string]string{}
+	if r.Intn(3) == 0 {
+		flags[[]string{"sample_index", "sample_index", "nodecount", "unit", "focus", "tagfocus", "granularity"}[r.Intn(7)]] = []string{"7", "-1", "2", "99999999999", "nosuch", "(", ""}[r.Intn(7)]
+		lines = append(lines, []string{"o", "options", "top", "o"}[r.Intn(4)])
+	}
+	out, err, hang := runSession(sess.Spec{Profile: buf.Bytes(), Mode: "interactive", Lines: lines, Dir: c.Tmp, Strs: flags})
 	c.Stat("interactive_sessions", 1)
 	c.Stat("interactive_lines", int64(len(lines)))
 	if err != nil {
